@@ -49,3 +49,37 @@ Example prepare_examples :
   /\ regex_prepare [92;123;51;125] = [92;123;51;125]
   /\ regex_prepare [92;123;120;125] = [92;123;120;92;125].
 Proof. repeat split; vm_compute; reflexivity. Qed.
+
+(* ---------- what counts as a repetition quantifier: `{n}`, `{n,m}` and `{n,}` ---------- *)
+Lemma take_digits_app : forall d rest, forallb is_09 d = true ->
+  (match rest with c :: _ => is_09 c = false | [] => True end) -> take_digits (d ++ rest) = (d, rest).
+Proof.
+  induction d as [|c d IH]; intros rest Hd Hr; cbn [app take_digits].
+  - destruct rest as [|c r]; [reflexivity|]. cbn [take_digits]. rewrite Hr. reflexivity.
+  - cbn [forallb] in Hd. apply andb_true_iff in Hd. destruct Hd as [Hc Hd']. rewrite Hc, (IH rest Hd' Hr). reflexivity.
+Qed.
+Theorem quantifier_exact : forall d rest, d <> [] -> forallb is_09 d = true ->
+  quantifier_body (d ++ 125 :: rest) = Some (d, rest).
+Proof.
+  intros d rest Hne Hd. unfold quantifier_body. rewrite take_digits_app by (exact Hd || reflexivity).
+  destruct d; [congruence|reflexivity].
+Qed.
+(* `{n,m}` and, with no second number, `{n,}` *)
+Theorem quantifier_range : forall d1 d2 rest, d1 <> [] -> forallb is_09 d1 = true -> forallb is_09 d2 = true ->
+  quantifier_body (d1 ++ 44 :: d2 ++ 125 :: rest) = Some (d1 ++ [44] ++ d2, rest).
+Proof.
+  intros d1 d2 rest Hne H1 H2. unfold quantifier_body. rewrite take_digits_app by (exact H1 || reflexivity).
+  destruct d1 as [|c d1']; [congruence|]. rewrite take_digits_app by (exact H2 || reflexivity). reflexivity.
+Qed.
+(* nothing else: a first number is needed *)
+Theorem quantifier_needs_number : forall c rest, is_09 c = false -> quantifier_body (c :: rest) = None.
+Proof. intros c rest H. unfold quantifier_body. cbn [take_digits]. rewrite H. reflexivity. Qed.
+
+Example quantifier_examples :
+  (* a{3,} stays (it used to come out as a\{3,\}) ; a{3} and a{3,5} stay ; a{,3} and a{x} are text *)
+  regex_prepare [97;123;51;44;125] = [97;123;51;44;125]
+  /\ regex_prepare [97;123;51;125] = [97;123;51;125]
+  /\ regex_prepare [97;123;51;44;53;125] = [97;123;51;44;53;125]
+  /\ regex_prepare [97;123;44;51;125] = [97;92;123;44;51;92;125]
+  /\ regex_prepare [97;123;120;125] = [97;92;123;120;92;125].
+Proof. repeat split; vm_compute; reflexivity. Qed.
